@@ -258,13 +258,24 @@ func verifPumpHistory() {
 		o.TopologyRegion, o.TopologyZone = "r1", "z1"
 	}
 	verifrt.Preemptions(0)
+	// disk-backed: mem-queue-size 0, every message goes through the channel's disk queue and comes
+	// back on its read channel (only without topology awareness, to keep the product small)
+	diskBacked := topo == 0 && verifrt.Choice("disk-backed", 2) == 1
+	if diskBacked {
+		o.MemQueueSize = 0
+	}
 	var st *verifChan
 	var cl *clientV2
+	var feed *verifFeedBackend
 	verifrt.Atomic(func() {
 		verifConcreteIDs, verifIDSeq = true, 0
 		st = verifNewChan(o, "ch")
 		cl = st.addClient(7)
 		cl.State = stateInit
+		if diskBacked {
+			feed = newVerifFeedBackend()
+			st.c.backend = feed
+		}
 	})
 	if verifrt.Symbolic() {
 		verifTickC = make(chan time.Time)
@@ -313,7 +324,7 @@ func verifPumpHistory() {
 		sentBefore := cl.MessageCount
 		queuedBefore := st.c.Depth()
 		published := int64(0)
-		switch verifrt.Choice("event", 7) {
+		switch verifrt.Choice("event", 8) {
 		case 0: // RDY n
 			nrdy := []string{"0", "1", "2"}[verifrt.Choice("rdy", 3)]
 			p.RDY(cl, [][]byte{[]byte("RDY"), []byte(nrdy)})
@@ -345,6 +356,9 @@ func verifPumpHistory() {
 		case 6: // the channel is emptied: outstanding messages are gone, the subscription stays
 			st.c.Empty()
 			queuedBefore = 0
+		case 7: // every outstanding message times out: back on the queue, to be delivered again
+			st.c.processInFlightQueue(int64(3500000000000000000))
+			queuedBefore = st.c.Depth()
 		}
 		// state after the event, before the pump reacts (nothing else runs until Rest)
 		rdy, out := cl.ReadyCount, cl.InFlightCount
@@ -368,5 +382,12 @@ func verifPumpHistory() {
 	verifrt.Reach("history-with-delivery", cl.MessageCount > 0)
 	verifrt.Reach("history-with-cls", closing)
 	close(cl.ExitChan)
+	if feed != nil {
+		feed.Close()
+	}
 	verifrt.Rest()
 }
+
+// Pause / unpause over HTTP have exactly their stated effect whatever the names and extra
+// arguments look like (shared with C10).
+func VerifC03_PauseEndpoints() { verifrt.Atomic(verifC10Admin) }
